@@ -23,6 +23,11 @@ pub broadcast axiom fn axiom_parse_print(n: i32)
     ensures #[trigger] spec_parse_i32(spec_i32_to_string(n)) == Some(n);
 }
 }
+verus! {
+// [trusted] std i32::saturating_add clamps at the i32 bounds
+pub assume_specification[i32::saturating_add](a: i32, b: i32) -> (r: i32)
+    ensures r == (if a + b > i32::MAX { i32::MAX as int } else if a + b < i32::MIN { i32::MIN as int } else { a + b });
+}
 use vstd::std_specs::hash::*;
 use std::collections::HashMap;
 use std::sync::Arc;
